@@ -389,7 +389,8 @@ example : (drun exCfgFive (dinit exCfgFive)
 was closed**: every `connect` of the observed log is followed by the `eof` of that session —
 whenever and however the run was cancelled. -/
 theorem observed_all_closed {c : DCfg} {mgmt : Str} {labels : List DLabel} {observed : List CEv}
-    {tags : List FileResult} (wf : DWf c mgmt) (h : traceCheck c labels observed tags = .ok)
+    {tags : List FileResult} {exitZero : Bool} (wf : DWf c mgmt)
+    (h : traceCheck c labels observed tags exitZero = .ok)
     (pre post : List CEv) (k : Nat) (db : Str)
     (hlog : stripCancel observed = pre ++ CEv.connect k db :: post) : CEv.eof k ∈ post := by
   obtain ⟨s, hs⟩ := traceCheck_ok h
@@ -405,7 +406,7 @@ theorem observed_all_closed {c : DCfg} {mgmt : Str} {labels : List DLabel} {obse
 /-- … and the per-file results of an observed run that replays are a complete report: one result per
 file. -/
 theorem observed_report_complete {c : DCfg} {labels : List DLabel} {observed : List CEv}
-    {tags : List FileResult} (h : traceCheck c labels observed tags = .ok) :
+    {tags : List FileResult} {exitZero : Bool} (h : traceCheck c labels observed tags exitZero = .ok) :
     tags.length = c.files.length ∧
     ∃ s : DSt, (s.results.map (·.1)).Perm (List.range c.files.length) ∧
       ∀ i, i < c.files.length → resultOf s.results i = tags[i]? := by
